@@ -119,5 +119,5 @@ package dagprocessor
 //@ func (*Processor).Enqueue
 //@   requires f != nil && f.eventsSemaphore != nil && f.eventsSemaphore.cond != nil && f.checker != nil && f.orderedInserter != nil
 //@   requires len(events) <= 4294967295 && forall(i, 0, len(events), events[i] != nil && events[i].Size() >= 0)
-//@   modifies f.eventsSemaphore.processing, f.eventsSemaphore.maxProcessing
-//@   ensures  true
+//@   modifies f.eventsSemaphore.processing, f.eventsSemaphore.maxProcessing, gTryLast
+//@   ensures  [busy] !gTryLast ==> result == ErrBusy
